@@ -630,6 +630,7 @@ def seqStep (s : SeqSys) (toks : List String) : SeqSys × String :=
       else (s, s!"finilp lp={lp} seq={hx (digest st)} cnt={st.cnt.toNat}")
     | none => (s, "no-seq")
   | ["gvt", r, tq] => (s, s!"gvt {r} tq={tq}")
+  | "hang" :: rest => (s, " ".intercalate ("hang" :: rest))
   | ["end"] => (s, "end")
   | _ => (s, "bad-op")
 
